@@ -66,6 +66,15 @@ VARIANTS = [
     ("pwd-stage-off-under-undo", F, ["C07", "C15"], [(AF, "        if anon_pwd:", "        if anon_pwd and not undo_ip_anon:")]),
     ("digit-prefilter-on-ip-stages", F, ["C02", "C06"], [(AF, "            if self.anonymizer6 is not None:", "            if self.anonymizer6 is not None and any(c.isdigit() for c in output_line):")]),
     ("decode-lstrip-magic", F, ["C14", "C18", "C08"], [(JS, "    chars = crypt[len(MAGIC) :]", "    chars = crypt.lstrip(MAGIC)")]),
+    ("input-opened-with-errors-replace", F, ["C08", "C07", "C12", "C16"], [(AF, 'with open(in_path, "r") as f_in, open(out_path, "w") as f_out:', 'with open(in_path, "r", errors="replace") as f_in, open(out_path, "w") as f_out:')]),
+    ("input-latin1-output-default", F, ["C09", "C02", "C12"], [(AF, 'with open(in_path, "r") as f_in, open(out_path, "w") as f_out:', 'with open(in_path, "r", encoding="latin-1") as f_in, open(out_path, "w") as f_out:')]),
+    ("streams-newline-lf", F, ["C07", "C16", "C06"], [(AF, 'with open(in_path, "r") as f_in, open(out_path, "w") as f_out:', 'with open(in_path, "r", newline="\\n") as f_in, open(out_path, "w", newline="\\n") as f_out:')]),
+    ("both-streams-utf8", S, None, [(AF, 'with open(in_path, "r") as f_in, open(out_path, "w") as f_out:', 'with open(in_path, "r", encoding="utf-8") as f_in, open(out_path, "w", encoding="utf-8") as f_out:'), (AF, 'with open(in_file, "r") as in_io, open(out_file, "w") as out_io:', 'with open(in_file, "r", encoding="utf-8") as in_io, open(out_file, "w", encoding="utf-8") as out_io:')]),
+    ("reserved-words-lowercased-by-argparse", F, ["C10", "C19"], [(NC, '        "--reserved-words",\n        default=None,', '        "--reserved-words",\n        default=None,\n        type=str.lower,')]),
+    ("salt-from-environment", F, ["C19"], [(NC, '        "--salt",\n        default=None,', '        "--salt",\n        default=None,\n        env_var="NETCONAN_SALT",')]),
+    ("salt-token-urlsafe", F, ["C13"], [(AF, '"".join(\n                random.choice(_CHAR_CHOICES) for _ in range(_DEFAULT_SALT_LENGTH)\n            )', "secrets.token_urlsafe(12)"), (AF, "import random\n", "import random\nimport secrets\n")]),
+    ("salt-random-choices", S, None, [(AF, '"".join(\n                random.choice(_CHAR_CHOICES) for _ in range(_DEFAULT_SALT_LENGTH)\n            )', '"".join(random.choices(_CHAR_CHOICES, k=_DEFAULT_SALT_LENGTH))')]),
+    ("reserved-field-aliases-module-set", F, ["C13"], [(AF, "self.reserved_words = set(default_reserved_words)", "self.reserved_words = default_reserved_words"), (AF, "self.reserved_words.update(reserved_words)", "self.reserved_words |= set(reserved_words)")]),
     ("reserved-set-updated-in-place", F, ["C15", "C13"], [(SI, "        self.reserved_words = {w.lower() for w in reserved_words}\n", "        self.reserved_words = reserved_words\n        self.reserved_words |= {w.lower() for w in reserved_words}\n")]),
     ("private-merged-only-when-absent", F, ["C05", "C19"], [(NC, "addrs if preserve_addresses is None else (preserve_addresses + addrs)", "addrs if preserve_addresses is None else preserve_addresses")]),
     ("dump-before-loop-filter-ge", F, ["C17"], [(IP, "if len(bits) == self.length", "if len(bits) >= self.length - 1")]),
